@@ -152,6 +152,13 @@ def case_fn(case):
                     T=T, P=P, exc=repr(e))
             continue
         got = np.asarray(got, dtype=float)
+        if float(T).is_integer() and float(P).is_integer():
+            # the same point given as Python ints (a layer temperature of 1000, a pressure of 100000)
+            try:
+                gi = np.asarray(op.opacity(int(T), int(P), wreq), dtype=float)
+                r.eq(gi, got, 'integer-arguments', 'int-args/%s' % tag, rtol=0, atol=0, T=T, P=P)
+            except Exception as e:
+                r.check(False, 'no-exception', 'exception/%s/int-args/%s' % (type(e).__name__, tag), T=T, P=P, exc=repr(e))
         xs = x[:, :, sel]
         want_shape = xs.shape[2:]
         if not r.check(got.shape == want_shape, 'shape', 'shape/%s' % tag, got=got.shape,
